@@ -8,7 +8,8 @@ MODES = ["cbc", "glpk-noimport", "glpk-solvererror"]
 RULE = ("every case is run under three solver configurations (CBC; cylp import masked -> GLPK; CBC raising SolverError -> GLPK), best and soft: "
         "each result is judged by the verified partition / cover checker, small cases are certified minimal by the verified search, medium "
         "ones (up to 2x14, 3x8, 4x5, 5x4 units) are compared across configurations within 2^-15; the solver actually passed to cvxpy is "
-        "recorded and compared with the selection model (C08_fallback_total); non-trivial = all three configurations returned and the "
+        "recorded and compared with the selection model (C08_fallback_total); 120 more continua with 3-4 annotators and combined dissimilarities are run under "
+        "the import-masked fallback alone and judged by the partition checker; non-trivial = all three configurations returned and the "
         "alignment has a tuple with two real units; distinct by (units, dissimilarity)")
 TRUSTED_BASE = ["Coq 8.16.1 kernel", "extraction (ExtrOcamlBasic only), ocaml/driver.ml", "harness/{common,align,alignchk,gen,c08}.py",
                 "the import hook masking cylp and the wrapper around cvxpy.Problem.solve (installed in the importing process)"]
@@ -22,6 +23,19 @@ def run(rep, tier, seed, pa):
     rng = rng_for(seed, "C08")
     small = ac.random_cases(rng, 60 if tier == "quick" else 600, tier, unlabelled_share=0.15, kmax={2: 5, 3: 4, 4: 3, 5: 2})
     medium = ac.random_cases(rng, 40 if tier == "quick" else 400, tier, unlabelled_share=0.1, kmax={2: 14, 3: 8, 4: 5, 5: 4})
+    # fallback only, three or more annotators, combined dissimilarities: where the LP relaxation of the partition program has fractional
+    # vertices, so that a fallback that is not an integer program shows as a result that is not a partition (not only as a solver name)
+    frac = ac.random_cases(rng, 120 if tier == "quick" else 1200, tier, unlabelled_share=0.0, kmax={3: 5, 4: 4}, kinds=["comb"], ns=[3, 3, 4],
+                           patterns=["perturbed", "random", "random", "nested", "samelabel"])
+    items = list(zip(frac, ac.align_many(pa, [(case, "glpk-noimport", False) for case in frac])))
+    for case, res in items:
+        rep.count("group=fallback-3plus")
+        rep.case(nontrivial_key=(repr(case["units"]), case["spec"], "fallback") if res["error"] is None else None)
+        if res["error"] is None and [str(s) for s in res["solvers"]] != EXPECTED["glpk-noimport"]:
+            rep.violation("solver-selection", {"units": case["units"], "dissim": case["spec"], "mode": "glpk-noimport", "soft": False,
+                                               "solvers": [str(s) for s in res["solvers"]]},
+                          "solve calls %r differ from the selection model %r" % (res["solvers"], EXPECTED["glpk-noimport"]))
+    ac.judge_many(rep, items, part=True, want_optimal=False, limit=20, prefix="glpk-noimport:")
     for grp, cases in (("small", small), ("medium", medium)):
         for soft in (False, True):
             per_mode = {}
